@@ -71,7 +71,7 @@ def tlc(
     """Run TLC on spec/<module>.tla with spec/<cfg>. PrintT(ToJson(x)) lines are decoded."""
     cfg = cfg or module + ".cfg"
     meta = tempfile.mkdtemp(prefix="tlcmeta_", dir=workdir)
-    jopts = f"-Xmx{heap} -XX:+UseParallelGC -XX:ParallelGCThreads=4"
+    jopts = f"-Xmx{heap} -XX:+UseParallelGC -XX:ParallelGCThreads=4 -Djava.io.tmpdir={meta}"   # TLC's tlc-<n> scratch too
     if dfs:
         jopts += " -Dtlc2.tool.queue.IStateQueue=StateDeque"
     cmd = [
